@@ -558,6 +558,10 @@ void fp12_back_cyc(fp12_t c, const fp12_t a) {
 		fp2_sqr(t2, a[1][2]);
 		fp2_mul_nor(t0, t2);
 		fp2_add(t0, t0, t1);
+		/* If f, the numerator is 2 * g4 * g5 alone. */
+		fp2_mul(t2, a[0][1], a[1][2]);
+		fp2_dbl(t2, t2);
+		fp2_copy_sec(t0, t2, f);
 		/* t1 = (4 * g2). */
 		fp2_dbl(t1, a[1][0]);
 		fp2_dbl(t1, t1);
@@ -640,6 +644,10 @@ void fp12_back_cyc_sim(fp12_t c[], const fp12_t a[], int n) {
 			fp2_sqr(t2[i], a[i][1][2]);
 			fp2_mul_nor(t0[i], t2[i]);
 			fp2_add(t0[i], t0[i], t1[i]);
+			/* If f, the numerator is 2 * g4 * g5 alone. */
+			fp2_mul(t2[i], a[i][0][1], a[i][1][2]);
+			fp2_dbl(t2[i], t2[i]);
+			fp2_copy_sec(t0[i], t2[i], f);
 			/* t1 = (4 * g2). */
 			fp2_dbl(t1[i], a[i][1][0]);
 			fp2_dbl(t1[i], t1[i]);
@@ -1311,6 +1319,10 @@ void fp18_back_cyc(fp18_t c, const fp18_t a) {
 		fp3_sqr(t2, a[1][2]);
 		fp3_mul_nor(t0, t2);
 		fp3_add(t0, t0, t1);
+		/* If f, the numerator is 2 * g4 * g5 alone. */
+		fp3_mul(t2, a[0][1], a[1][2]);
+		fp3_dbl(t2, t2);
+		fp3_copy_sec(t0, t2, f);
 		/* t1 = (4 * g2). */
 		fp3_dbl(t1, a[1][0]);
 		fp3_dbl(t1, t1);
@@ -1393,6 +1405,10 @@ void fp18_back_cyc_sim(fp18_t c[], const fp18_t a[], int n) {
 			fp3_sqr(t2[i], a[i][1][2]);
 			fp3_mul_nor(t0[i], t2[i]);
 			fp3_add(t0[i], t0[i], t1[i]);
+			/* If f, the numerator is 2 * g4 * g5 alone. */
+			fp3_mul(t2[i], a[i][0][1], a[i][1][2]);
+			fp3_dbl(t2[i], t2[i]);
+			fp3_copy_sec(t0[i], t2[i], f);
 			/* t1 = (4 * g2). */
 			fp3_dbl(t1[i], a[i][1][0]);
 			fp3_dbl(t1[i], t1[i]);
@@ -1842,6 +1858,10 @@ void fp24_back_cyc(fp24_t c, const fp24_t a) {
 		fp4_sqr(t2, a[2][1]);
 		fp4_mul_art(t0, t2);
 		fp4_add(t0, t0, t1);
+		/* If f, the numerator is 2 * g4 * g5 alone. */
+		fp4_mul(t2, a[2][0], a[2][1]);
+		fp4_dbl(t2, t2);
+		fp4_copy_sec(t0, t2, f);
 		/* t1 = (4 * g2). */
 		fp4_dbl(t1, a[1][0]);
 		fp4_dbl(t1, t1);
@@ -1923,6 +1943,10 @@ void fp24_back_cyc_sim(fp24_t c[], const fp24_t a[], int n) {
 			fp4_sqr(t2[i], a[i][2][1]);
 			fp4_mul_art(t0[i], t2[i]);
 			fp4_add(t0[i], t0[i], t1[i]);
+			/* If f, the numerator is 2 * g4 * g5 alone. */
+			fp4_mul(t2[i], a[i][2][0], a[i][2][1]);
+			fp4_dbl(t2[i], t2[i]);
+			fp4_copy_sec(t0[i], t2[i], f);
 			/* t1 = (4 * g2). */
 			fp4_dbl(t1[i], a[i][1][0]);
 			fp4_dbl(t1[i], t1[i]);
@@ -2372,6 +2396,10 @@ void fp48_back_cyc(fp48_t c, const fp48_t a) {
 		fp8_sqr(t2, a[1][2]);
 		fp8_mul_art(t0, t2);
 		fp8_add(t0, t0, t1);
+		/* If f, the numerator is 2 * g4 * g5 alone. */
+		fp8_mul(t2, a[0][1], a[1][2]);
+		fp8_dbl(t2, t2);
+		fp8_copy_sec(t0, t2, f);
 		/* t1 = (4 * g2). */
 		fp8_dbl(t1, a[1][0]);
 		fp8_dbl(t1, t1);
@@ -2454,6 +2482,10 @@ void fp48_back_cyc_sim(fp48_t c[], const fp48_t a[], int n) {
 			fp8_sqr(t2[i], a[i][1][2]);
 			fp8_mul_art(t0[i], t2[i]);
 			fp8_add(t0[i], t0[i], t1[i]);
+			/* If f, the numerator is 2 * g4 * g5 alone. */
+			fp8_mul(t2[i], a[i][0][1], a[i][1][2]);
+			fp8_dbl(t2[i], t2[i]);
+			fp8_copy_sec(t0[i], t2[i], f);
 			/* t1[i] = (4 * g2). */
 			fp8_dbl(t1[i], a[i][1][0]);
 			fp8_dbl(t1[i], t1[i]);
@@ -2902,6 +2934,10 @@ void fp54_back_cyc(fp54_t c, const fp54_t a) {
 		fp9_sqr(t2, a[2][1]);
 		fp9_mul_art(t0, t2);
 		fp9_add(t0, t0, t1);
+		/* If f, the numerator is 2 * g4 * g5 alone. */
+		fp9_mul(t2, a[2][0], a[2][1]);
+		fp9_dbl(t2, t2);
+		fp9_copy_sec(t0, t2, f);
 		/* t1 = (4 * g2). */
 		fp9_dbl(t1, a[1][0]);
 		fp9_dbl(t1, t1);
@@ -2986,6 +3022,10 @@ void fp54_back_cyc_sim(fp54_t c[], const fp54_t a[], int n) {
 			fp9_sqr(t2[i], a[i][2][1]);
 			fp9_mul_art(t0[i], t2[i]);
 			fp9_add(t0[i], t0[i], t1[i]);
+			/* If f, the numerator is 2 * g4 * g5 alone. */
+			fp9_mul(t2[i], a[i][2][0], a[i][2][1]);
+			fp9_dbl(t2[i], t2[i]);
+			fp9_copy_sec(t0[i], t2[i], f);
 			/* t1[i] = (4 * g2). */
 			fp9_dbl(t1[i], a[i][1][0]);
 			fp9_dbl(t1[i], t1[i]);
